@@ -164,8 +164,6 @@ class C06(core.Prop):
                 mc = cx.model_col(col)
                 if mc['ftype'] == 'other':
                     return []
-                if col['fam'] == 'float32' and any(k['kind'] in ('min', 'max') for k in case['constraints'][col['name']]):
-                    return []   # float32 rounding of the bound is outside the exact-rational model
                 ks = [c02.model_constraint(k, ids) for k in case['constraints'][col['name']]]
                 ops.append({'op': 'cx.detect', 'cfg': cfg, 'col': mc, 'constraints': ks})
         except ValueError:
